@@ -168,7 +168,7 @@ def run(prop, tier, seed):
     behs = vlib.dedup(behs)
     behs = behs[:((220 if prop == "C12" else 160) if tier == "quick" else 4000)]
     if prop == "C12":
-        behs = vlib.dedup(expand_faults(behs, 500 if tier == "quick" else 12000))
+        behs = vlib.dedup(expand_faults(behs, 500 if tier == "quick" else 5000))
     scen = mk_scen(behs, seed)
     log("generated %d distinct behaviours" % len(scen))
     sf, tf = os.path.join(d, "scen.json"), os.path.join(d, "trace.ndjson")
